@@ -126,3 +126,13 @@ chk("C20", "model_checking", "E1",
     "For NumRuns x NumGenerations in {0..3}^2 (0..4 thorough), observer present/absent, both executors and a context cancelled before the start or not, EVERY script of evaluator answers {unsolved, solved, error, cancel+unsolved, cancel+solved} is executed on the real Experiment.Execute (4-organism XOR population) - the tree is enumerated completely, no deviation bound. A reference state machine written from the statement gives the exact notification / evaluation sequence for undisturbed runs and the abort rule (same prefix, no further evaluation, the evaluator's error or context.Canceled) for aborted ones, the recorded trials, and the population handling (fresh per trial, start topology, turnover between unsolved generations, none after solved).",
     "Runs/generations bounded by 3 (4); the random draws of evolution are not enumerated here (they do not influence the protocol).",
     "DESIGN.md section 3 C20")
+
+ENGINES.append({"name": "E3 controlled scheduler + vector-clock monitor + free-running race pass", "path": "shims/vsched, shims/vsync, shims/vatomic, tools/instrument, cmd/mc/c16.go",
+  "serves_properties": ["C16"],
+  "kind_free_text": "the instrumenting overlay turns go statements, channel operations, sync and sync/atomic calls of the real code into cooperative scheduling points; all interleavings within a preemption bound are enumerated; a happens-before monitor watches the anchored shared fields; the same bodies also run free under Go's race detector"})
+
+chk("C16", "model_checking", "E3",
+    "stateless preemption-bounded exploration of all interleavings of the real parallel executor under a controlled scheduler, with a vector-clock happens-before monitor; plus a free-running race-detector pass",
+    "For scenarios in which 2-3 species innovate on shared structure in the same epoch (all add-node, all add-link, mixed with mating and interspecies dad, optionally after a warm-up epoch) ALL interleavings of the real ParallelPopulationEpochExecutor.NextEpoch at its synchronisation operations and Population method entries are enumerated with at most 2 (quick) / 3 (thorough) preemptions; on every schedule: no deadlock, panic or livelock, no happens-before race on Population.innovations / nextInnovNum / nextNodeId, no epoch error, exact size and partition, well-formed genomes, innovation ledger. Thread-local random answers keep each thread's data schedule-independent. The same bodies run free under Go's race detector (6 / 60 runs, GOMAXPROCS 2 and 16).",
+    "Preemption bound; <= 3 reproduction threads; sequentially consistent interleavings only; race-freedom outside the anchored fields rests on the (not schedule-exhaustive) race-detector pass. Trusts the instrumenter's rewriting of go/chan/sync constructs and the shims.",
+    "DESIGN.md section 3 C16")
